@@ -27,7 +27,20 @@ def split(x: fp.Float, n: fp.Float, ctx: fp.Context) -> tuple[fp.Float, fp.Float
     if not n.is_integer():
         raise ValueError("n must be an integer")
 
-    if x.isnan:
+    if isinstance(x, Fraction):
+        # a rational no `Float` holds (an exact value under `REAL`): the part
+        # above digit `n` is a multiple of 2**(n + 1), the rest goes below
+        unit = Fraction(2) ** (int(n) + 1)
+        above_q = math.trunc(x / unit) * unit
+        # a part that is zero carries the sign of `x`, as it does for a `Float`
+        parts = [
+            fp.Float(s=x < 0, c=0, exp=0) if part == 0 else part
+            for part in (above_q, x - above_q)
+        ]
+        if ctx is fp.REAL:
+            return parts[0], parts[1]
+        return ctx.round(parts[0], exact=True), ctx.round(parts[1], exact=True)
+    elif x.isnan:
         hi = ctx.round(fp.Float.nan(), exact=True)
         lo = ctx.round(fp.Float.nan(), exact=True)
         return hi, lo
@@ -109,7 +122,19 @@ def frexp(x: fp.Float, ctx: fp.Context) -> tuple[fp.Float, fp.Float]:
     - if `x` is infinity, the result is `(x, NaN)`.
     - if `x` is zero, the result is `(x, 0)`.
     """
-    if x.isnan:
+    if isinstance(x, Fraction):
+        # a rational no `Float` holds (an exact value under `REAL`)
+        if x == 0:
+            return ctx.round(fp.Float.zero(), exact=True), ctx.round(fp.Float.zero(), exact=True)
+        # floor(log2(|x|)): bit lengths get within one of it
+        ex = abs(x).numerator.bit_length() - abs(x).denominator.bit_length()
+        if abs(x) < Fraction(2) ** ex:
+            ex -= 1
+        mant = x / Fraction(2) ** ex
+        if ctx is fp.REAL:
+            return mant, fp.Float.from_int(ex)
+        return ctx.round(mant, exact=True), ctx.round(ex, exact=True)
+    elif x.isnan:
         m = ctx.round(fp.Float.nan(), exact=True)
         e = ctx.round(fp.Float.nan(), exact=True)
         return m, e
